@@ -15,6 +15,7 @@
 #include <vector>
 #include <string>
 #include <sys/mman.h>
+#include <unistd.h>
 
 #if defined(__SANITIZE_ADDRESS__)
 #define VF_ASAN 1
@@ -75,8 +76,15 @@ struct AllocState {
         void *ptr;
         size_t size, map_size;
         bool live, array;
+        size_t lead = sizeof(BlockHdr);  // bytes between the start of the mapping and ptr
     } huge[16] = {};
     unsigned n_huge = 0;
+    // very large requests served from a small window of real memory mapped over and over (a memfd of 16 MiB + 4 KiB shared-mapped
+    // at consecutive addresses): a block of several GiB can be written completely while only the window is resident.  Bytes whose
+    // offsets are congruent modulo the window share storage; the pages from the last page boundary on (which hold the terminator)
+    // are private.  For code whose work is proportional to the size and whose result can be checked at the end of the block.
+    bool huge_alias = false;
+    static constexpr size_t ALIAS_WINDOW = (size_t(16) << 20) + 4096;
     // one-shot placement: the next array request of at most place_cap bytes is served at exactly this address, without header
     // or canary (to put a library-owned block directly next to a caller-owned one); freeing it is a no-op
     void *place_next = nullptr;
@@ -149,6 +157,32 @@ inline void *raw_alloc(size_t n, bool array)
         a.placed[a.n_placed++] = p;
         return p;
     }
+    if (a.huge_alias && n >= (size_t(64) << 20) && !a.bypass) {
+        if (a.n_huge == 16) throw std::bad_alloc();
+        static int fd = -1;
+        if (fd < 0) {
+            fd = memfd_create("vf-alias-window", 0);
+            if (fd < 0 || ftruncate(fd, (off_t)AllocState::ALIAS_WINDOW) != 0) throw std::bad_alloc();
+        }
+        const size_t W = AllocState::ALIAS_WINDOW;
+        size_t aliased = n & ~size_t(4095);                      // [0, aliased) shares the window
+        size_t tail = ((n + 8 + 4095) & ~size_t(4095)) - aliased;  // private pages: the rest of the data + terminator room
+        if (tail == 0) tail = 4096;
+        size_t map_size = 4096 + aliased + tail;
+        char *raw = (char *)mmap(nullptr, map_size, PROT_READ | PROT_WRITE, MAP_PRIVATE | MAP_ANONYMOUS | MAP_NORESERVE, -1, 0);
+        if (raw == (char *)MAP_FAILED) throw std::bad_alloc();
+        for (size_t off = 0; off < aliased; off += W) {
+            size_t len = aliased - off < W ? aliased - off : W;
+            if (mmap(raw + 4096 + off, len, PROT_READ | PROT_WRITE, MAP_SHARED | MAP_FIXED, fd, 0) == MAP_FAILED) {
+                munmap(raw, map_size);
+                throw std::bad_alloc();
+            }
+        }
+        void *user = raw + 4096;
+        memcpy(raw + 4096 + n, &TAIL_MAGIC, 8);  // lies in the private tail
+        a.huge[a.n_huge++] = AllocState::Huge{user, n, map_size, true, array, 4096};
+        return user;
+    }
     if (a.huge_lazy && n >= (size_t(64) << 20) && !a.bypass) {
         if (a.n_huge == 16) {  // drop the records of blocks that are gone
             unsigned k = 0;
@@ -162,7 +196,7 @@ inline void *raw_alloc(size_t n, bool array)
         if (raw == (char *)MAP_FAILED) throw std::bad_alloc();
         void *user = raw + sizeof(BlockHdr);
         memcpy(raw + sizeof(BlockHdr) + n, &TAIL_MAGIC, 8);
-        a.huge[a.n_huge++] = AllocState::Huge{user, n, map_size, true, array};
+        a.huge[a.n_huge++] = AllocState::Huge{user, n, map_size, true, array, sizeof(BlockHdr)};
         return user;
     }
     char *raw = (char *)malloc(sizeof(BlockHdr) + n + 8);
@@ -218,7 +252,7 @@ inline void raw_free(void *p, bool array)
                 note_event("write past the end of a heap block");
             }
             hg.live = false;
-            munmap((char *)p - sizeof(BlockHdr), hg.map_size);
+            munmap((char *)p - hg.lead, hg.map_size);
             return;
         }
     }
@@ -348,7 +382,7 @@ inline const AllocState::Huge *find_huge(const void *p)
 inline void huge_reset()
 {
     for (unsigned i = 0; i < g_alloc.n_huge; ++i)
-        if (g_alloc.huge[i].live) munmap((char *)g_alloc.huge[i].ptr - sizeof(BlockHdr), g_alloc.huge[i].map_size);
+        if (g_alloc.huge[i].live) munmap((char *)g_alloc.huge[i].ptr - g_alloc.huge[i].lead, g_alloc.huge[i].map_size);
     g_alloc.n_huge = 0;
 }
 inline size_t live_tracked()
